@@ -68,7 +68,7 @@ impl Gen {
             "death3" | "three" => 3 + rng.below(2) as usize,
             // a single peer that owns every player (with or without spectators)
             "solo" => 1,
-            "timesync" | "lossack" | "death" | "zombie" | "disc" | "specack" | "specdeath" | "idle" | "glitch" | "forge" | "evq" => 2,
+            "timesync" | "lossack" | "death" | "zombie" | "disc" | "specack" | "specdeath" | "specdisc" | "idle" | "glitch" | "forge" | "evq" => 2,
             _ => *rng.pick(&[2usize, 2, 2, 3, 3, 4]),
         };
         let players_per_peer: Vec<usize> = if family == "solo" {
@@ -85,7 +85,7 @@ impl Gen {
         let n_spec = match family {
             "spec" => 1 + rng.below(2) as usize,
             "solo" => rng.below(3) as usize,
-            "specack" | "specdeath" => 1,
+            "specack" | "specdeath" | "specdisc" => 1,
             "death" | "zombie" | "disc" => if rng.chance(1, 2) { 1 } else { 0 },
             "mix" | "events" | "delay" => if rng.chance(1, 4) { 1 } else { 0 },
             _ => 0,
@@ -114,6 +114,8 @@ impl Gen {
             p_late: match family {
                 "three" | "death3" | "loss" | "lossack" | "late" => *rng.pick(&[0u64, 20, 60]),
                 "mix" | "death" | "spec" => *rng.pick(&[0u64, 0, 0, 20]),
+                // stale copies of the host's packets keep arriving at the spectator long after a drop
+                "specdisc" => *rng.pick(&[150u64, 300, 600]),
                 _ => 0,
             },
             step_us: *rng.pick(&[2000u64, 4000, 8000, 16000]),
@@ -123,7 +125,7 @@ impl Gen {
         };
         // only the families about faults and drops play with short timeouts; everywhere else an
         // accidental timeout would just move the scenario into another property's space
-        if !matches!(family, "loss" | "lossack" | "death" | "zombie" | "death3" | "disc" | "three") {
+        if !matches!(family, "loss" | "lossack" | "death" | "zombie" | "death3" | "disc" | "specdisc" | "three") {
             cfg.dt = *rng.pick(&[2000u64, 3000]);
         }
         if cfg.dn >= cfg.dt {
@@ -168,6 +170,13 @@ impl Gen {
                 let len = 50_000 + rng.below(1_200_000);
                 cfg.outages.push((3, 1, from, from + len));
             }
+            "specdisc" => {
+                // a host with a spectator drops the other peer (explicitly or by timeout) on an
+                // otherwise mild network with many late duplicates
+                cfg.p_drop = *rng.pick(&[0u64, 0, 10]);
+                cfg.p_deliver = *rng.pick(&[100u64, 100, 70]);
+                cfg.duration_ticks = 150 + rng.below(200);
+            }
             "glitch" => {
                 cfg.dd = 1 + rng.below(12) as u32;
                 cfg.sparse = false;
@@ -192,7 +201,8 @@ impl Gen {
             "clean" | "timesync" => {
                 if family == "timesync" {
                     cfg.mp = 12;
-                    cfg.delay = 0;
+                    // the same input delay on both sides: the estimates must not depend on it
+                    cfg.delay = *rng.pick(&[0usize, 0, 0, 2, 3, 4, 6]);
                     cfg.dd = 0;
                     cfg.duration_ticks = 400;
                     cfg.step_us = 2000;
@@ -276,7 +286,7 @@ impl Gen {
                 s, spec_host(i), np, cfg.mp, cfg.fps, cfg.dt, cfg.dn, cfg.mfb, cfg.cs
             ));
             let base = 1_000_000 / cfg.fps as u64;
-            let pause = if self.rng.chance(1, 2) {
+            let pause = if cfg.family != "specdisc" && self.rng.chance(1, 2) {
                 let from = 300_000 + self.rng.below(1_500_000);
                 Some((from, from + self.rng.below(2_500_000)))
             } else {
@@ -331,6 +341,10 @@ impl Gen {
             let f = 20 + self.rng.below(150);
             // k = 0: every execution of frame f on that session is perturbed (a lasting divergence)
             self.emit(format!("glitch {sid} {f} 0"));
+        }
+        if cfg.family == "specdisc" && self.rng.chance(1, 2) {
+            // the other peer dies; otherwise the host disconnects it explicitly (extra_ops)
+            self.peers[1].die_at = Some(300_000 + self.rng.below(1_500_000));
         }
         if cfg.family == "specdeath" {
             let idx = self.peers.len() - 1;
@@ -476,6 +490,13 @@ impl Gen {
                     self.emit(format!("setdelay {sid} {h} {d2}"));
                 }
             }
+            "specdisc" if sid == 1 && self.peers[1].die_at.is_none() && self.peers[i].ticks > 20 && self.rng.chance(1, 60) => {
+                let hs = self.peers[1].handles.clone();
+                if !hs.is_empty() {
+                    let h = *self.rng.pick(&hs);
+                    self.emit(format!("disc {sid} {h}"));
+                }
+            }
             "disc" if !self.peers[i].is_spec && self.rng.chance(1, 120) => {
                 let np: usize = self.cfg.players_per_peer.iter().sum();
                 let h = self.rng.below(np as u64) as usize;
@@ -586,11 +607,19 @@ impl Gen {
         let pred = if self.rng.chance(1, 3) { 'D' } else { 'R' };
         self.emit(format!("new sync 1 np={np} mp={mp} cd={cd} delay={delay} pred={pred}"));
         if self.cfg.family == "syncglitch" {
-            let f = 3 + self.rng.below(60);
             // the k-th execution (k >= 2: a re-simulation) of frame f yields another state than the
-            // first one did. (A deviation of the first execution only is invisible to any observer:
-            // its result is discarded by the very next rollback before it is ever saved.)
-            let k = 2 + self.rng.below(2);
+            // first one did. (A deviation of the first execution only is invisible to any observer
+            // once the session rolls back on every call: its result is discarded by the very next
+            // rollback before it is ever saved.)
+            let (f, k) = if cd >= 2 && cd < mp && self.rng.chance(1, 3) {
+                // the warm-up phase: the first `cd` calls do not roll back, so the FIRST execution
+                // of a frame 1 ..= cd - 1 is saved and later compared with its re-simulation (frame 0 is
+                // never simulated a second time: the first rollback starts from frame 1); and the
+                // re-simulations of the very first rollback are the first ones to be compared at all
+                if self.rng.chance(1, 2) { (1 + self.rng.below(cd as u64 - 1), 1) } else { (1 + self.rng.below(cd as u64 + 1), 2) }
+            } else {
+                (3 + self.rng.below(60), 2 + self.rng.below(2))
+            };
             self.emit(format!("glitch 1 {f} {k}"));
         }
         let ticks = if self.rng.chance(1, 10) { 600 } else { 40 + self.rng.below(160) };
